@@ -794,7 +794,7 @@ int main(int argc, char **argv) {
 	uint64_t seed = vh::argU64(argc, argv, 1, 1);
 	uint64_t ncases = vh::argU64(argc, argv, 2, 100);
 	uint64_t mode = vh::argU64(argc, argv, 3, 0);
-	Rng top(seed * 0x9E3779B97F4A7C15ull + mode);
+	Rng top(vh::hashSeed(seed) + mode);
 	std::cout << "# prop=C13 seed=" << seed << " mode=" << mode << "\nwords";
 	for (auto w : RESERVED) std::cout << ' ' << w;
 	std::cout << '\n';
